@@ -68,4 +68,12 @@ example : (∀ f ∈ [Fm.top, Fm.atom 0], f.atomsOK) ∧ 2 ≤ VBOT := by
   simp at hf
   rcases hf with h | h <;> subst h <;> simp [Fm.atomsOK, VBOT]
 
+/-- non-vacuity of `grounded_native_is_lfp` / `grounded_is_lfp_any_backend`: the fresh store with the
+two constant conditions ⊤, ⊥ meets the hypotheses, and the ideal library any list of functions -/
+example : WF Store.init ∧ (∀ t ∈ [1, 0], t < Store.init.nodes.size) ∧ [1, 0].length < 3 := by
+  refine ⟨WF_init', ?_, by simp⟩
+  intro t ht
+  simp at ht
+  rcases ht with h | h <;> subst h <;> simp [Store.init]
+
 end C01
